@@ -27,6 +27,7 @@ def run(chk):
     chk.guard(c20.coin_kernels, chk, it)
     it.base_read_hooks.pop('coins', None)
     chk.guard(header_kernel, chk, it)
+    chk.guard(txroot_kernel, chk, it)
     chk.guard(next_kernel, chk, it)
     chk.guard(smt_kernel, chk, it)
     chk.guard(stakes_tree_kernel, chk, it)
@@ -101,6 +102,70 @@ def header_kernel(chk, it):
     if n == 0:
         raise Inconclusive('header has no returning path')
     it.overrides = []
+
+
+def txroot_kernel(chk, it):
+    """transactions_root_hash before TIP-908: the value returned is the root of a tree that was built from the state's own
+    transaction set and holds, for every transaction, its full serialisation (signatures included) under hash(ser(hash_nosigs)),
+    and nothing else -- a function of the contents alone.  Process-wide mutable state the function may consult (a memo table
+    behind a Lazy / Mutex) is an arbitrary input here, not something the result may depend on."""
+    from mirsym.collections import MapM as _MapM
+    for ntx in (0, 1, 2):
+        G.reset()
+        G.atomic_domains = {'single:Transaction'}
+        st = State()
+        state, sterms = B.sym_state(st.pc)
+        st.pc.append(z3.ULE(sterms['height'], 100_000_000))
+        txs, mm = [], _MapM(ordered=True)
+        for i in range(ntx):
+            tx, tt = B.sym_tx('tx%d' % i, 1, 1, 1, st.pc, n_sigs=1)
+            txs.append(tx)
+            mm = mm.insert(S.txhash(B.tx_hash_term(it, st, tx)), tx)
+        if ntx == 2:
+            G.declare_distinct(B.tx_hash_term(it, st, txs[0]), B.tx_hash_term(it, st, txs[1]))
+        f = list(state.fields)
+        f[4] = Agg('TransactionSet', [Opaque('Map', mm)])
+        state = Agg(state.ty, f)
+        dense = z3.BitVec('dense_root', 256)
+        it.roots = []
+        it.overrides = [(re.compile(r'tip908_transactions$'), lambda i, s_, a, c: (s_.events.append(('dense',)), Opaque('Dense', ()))[1]),
+                        (re.compile(r'DenseMerkleTree::root_hash$'), lambda i, s_, a, c: Agg('array', [dense]))]
+        it.join_rx = None
+        fn = it.by_last['transactions_root_hash'][0]
+        try:
+            outs = it.exec_fn(st, fn, [Ptr(st.alloc(state))])
+        finally:
+            it.overrides = []
+        inputs = dict(sterms)
+        n = 0
+        for idx, (s, o) in enumerate(outs):
+            name = 'transactions_root_hash/%dtx/%d' % (ntx, idx)
+            rp = lambda mo: replay(chk)
+            if isinstance(o, Panic):
+                chk.obligation('PANIC/' + name, list(s.pc), z3.BoolVal(False), inputs, replay=rp, kind='PANIC', describe=str(o))
+                continue
+            if ('dense',) in s.events:
+                continue  # TIP-908 commitment: a dense Merkle tree over sorted leaves (novasmt), outside this kernel
+            n += 1
+            r = o.v.fields[0]
+            roots = {rt.sexpr(): tm for rt, tm in it.roots}
+            tm = roots.get(r.sexpr()) if hasattr(r, 'sexpr') else None
+            ok = tm is not None and len(tm.entries) == ntx and not getattr(tm, 'base_entries', None)
+            conj = []
+            if ok:
+                for tx in txs:
+                    key = M.hash_apply(s, 'single:TxHash', [B.tx_hash_term(it, s, tx)])
+                    e = M.tree_get(it, s, tm, key)
+                    if isinstance(e, Agg):
+                        ok = False
+                        break
+                    conj.append(z3.And(e.data.present, val_eq(e.data.value, tx)))
+            x = z3.Bool('txroot_is_root_of_own_tree_%d_%d' % (ntx, idx))
+            claim = z3.And(x, *conj) if ok else x
+            chk.obligation('FUNC/transaction-root-is-a-function-of-the-transaction-set-alone/' + name, list(s.pc) + [x == z3.BoolVal(bool(ok))], claim,
+                           inputs, replay=rp, bound='%d transaction(s) with symbolic signatures; networks / heights without TIP-908' % ntx)
+        if n == 0:
+            raise Inconclusive('transactions_root_hash has no pre-TIP-908 returning path')
 
 
 def next_kernel(chk, it):
